@@ -166,3 +166,43 @@ func init() {
 		return "identical"
 	})
 }
+
+var totalRe = regexp.MustCompile(`^Total: (-?\d+)\nShould: (-?\d+)\nDiff: ([-+]?\d+)\n\(In (\d+) records?\)\n$`)
+
+func init() {
+	register("eval-total", func(a []string) string {
+		y, _ := strconv.Atoi(a[0])
+		mo, _ := strconv.Atoi(a[1])
+		d, _ := strconv.Atoi(a[2])
+		h, _ := strconv.Atoi(a[3])
+		mi, _ := strconv.Atoi(a[4])
+		text := argBytes(a[6])
+		dir := scratchDir()
+		defer os.RemoveAll(dir)
+		f := filepath.Join(dir, "in.klg")
+		writeFile(f, text)
+		args := []string{"total", "--decimal", "--no-style", "--no-warn", "--diff"}
+		if a[5] == "1" {
+			args = append(args, "--now")
+		}
+		e := &cliEnv{Home: dir, Sticky: true, Clock: []gotime.Time{gotime.Date(y, gotime.Month(mo), d, h, mi, 30, 0, gotime.Local)}}
+		code, out, errText := runSafely(e, append(args, f)...)
+		if code == -1 {
+			return "crash"
+		}
+		if code != 0 {
+			if strings.Contains(errText, "Cannot apply --now flag") {
+				return "err uncloseable"
+			}
+			if strings.Contains(errText, "SYNTAX ERROR") {
+				return "invalid"
+			}
+			return "fail " + strconv.Itoa(code) + " " + hx(errText)
+		}
+		m := totalRe.FindStringSubmatch(out)
+		if m == nil {
+			return "unparsed " + hx(out)
+		}
+		return "ok " + m[1] + " " + m[2] + " " + strings.TrimPrefix(m[3], "+") + " " + m[4]
+	})
+}
